@@ -93,14 +93,115 @@ def check_export_bound(ctx, F):
     return ctx.ok('R5', role, ch.defpath, 'chunk count = ceil((BITS - leading_zeros(state)) / Word::BITS) <= State::BITS / Word::BITS (std contract of StepBy over Range)', key=key)
 
 
+_WRAPPERS = ('::unwrap', '::expect', '::ok_or_else', '::ok_or', 'BitArray::into_nonzero', 'BitArray::into_nonzero_unchecked', '::get', '::unwrap_unchecked', '::new_unchecked')
+
+
+def _width_kind(t, RANGE):
+    """'width': t scales the previous width (grammar W ::= range | W >> c | W << c | W * x | wrappers(W));
+    'position': t mentions `lower` or no previous width at all; None: something else."""
+    LOWER = RANGE[:-1] + (('f', 'lower'),)
+    is_pos = lambda x: isinstance(x, tuple) and x and x[0] == 'in' and x[1][:len(LOWER)] == LOWER
+
+    def mentions(t):
+        """does t mention range / lower outside the arguments of an entropy-model call (whose result is the symbol's share)?"""
+        if t == ('in', RANGE) or is_pos(t):
+            return True
+        if not isinstance(t, tuple):
+            return False
+        if t and t[0] == 'call' and isinstance(t[1], str) and ('EncoderModel::' in t[1] or 'DecoderModel::' in t[1]):
+            return False
+        return any(mentions(x) for x in t if isinstance(x, tuple))
+
+    def w(t):
+        if t == ('in', RANGE) or (isinstance(t, tuple) and t and t[0] == 'in' and t[1][:len(RANGE)] == RANGE):
+            return True
+        if not isinstance(t, tuple) or not t:
+            return False
+        if t[0] in ('unwrap', 'cast'):
+            return w(t[1] if t[0] == 'unwrap' else t[2])
+        if t[0] == 'call' and isinstance(t[1], str) and t[1].endswith(_WRAPPERS) and t[2]:
+            return w(t[2][0])
+        if t[0] == 'payload':
+            return w(t[1])
+        if t[0] == 'bin':
+            op = t[1].split('.')[0]
+            if op in ('Shr', 'Shl'):
+                return w(t[2]) and not mentions(t[3])
+            if op == 'Mul':
+                for a, b in ((t[2], t[3]), (t[3], t[2])):
+                    if w(a) and not mentions(b):
+                        return True
+        return False
+    if w(t):
+        return 'width'
+    # peel wrappers to look at the core
+    core = t
+    while isinstance(core, tuple) and core and ((core[0] == 'call' and isinstance(core[1], str) and core[1].endswith(_WRAPPERS) and core[2]) or core[0] == 'unwrap'):
+        core = core[2][0] if core[0] == 'call' else core[1]
+    if isinstance(core, tuple) and core and core[0] == 'bin' and core[1].split('.')[0] in ('Sub', 'Add') and (sym.contains(core, is_pos)):
+        return 'position'
+    if not sym.contains(t, lambda x: x == ('in', RANGE)):
+        return 'position'
+    return None
+
+
+def check_width_conserved(ctx, F):
+    """The range coder spends -log2(new width / old width) bits on a symbol; the advertised overhead is what the rounding in
+    `range >> PRECISION` loses.  That accounting presupposes that the interval width is only ever *scaled*: every value a coding
+    step stores in `range` is computed from the previous `range` (the symbol's share of it, or that share shifted by one word).
+    A step that replaces the width by something that does not depend on the previous width (e.g. clips it to the distance to the
+    wrap-around) throws interval away - or invents it - without any symbol accounting for it, even when encoder and decoder do
+    so consistently."""
+    RANGE = (1, 'deref', ('f', 'state'), ('f', 'range'))
+    steps = [(c08.RENC, 'encode_symbol', 'stream::Encode'), (anchors.RDEC, 'decode_symbol', 'stream::Decode')]
+    for adt, name, tr in steps:
+        b = anchors.method(F, adt, name, tr)
+        key = 'R1/width-conserved/%s::%s' % (adt, name)
+        role = 'every new interval width is computed from the previous width'
+        if b is None:
+            ctx.bad('R1', role, adt, '%s not found' % name, key=key)
+            continue
+        ctx.touch(b)
+        ev, paths = rules.evaluate(b)
+        if paths is None:
+            ctx.unresolved('R1', role, b.defpath, 'too many paths', key=key)
+            continue
+        n = 0
+        bad = None
+        for r in paths:
+            for e in r.events:
+                if e['kind'] == 'write' and e['path'][:len(RANGE)] == RANGE:
+                    n += 1
+                    k = _width_kind(e['value'], RANGE)
+                    if k == 'position':
+                        bad = 'a step stores %s in `range`: a width computed from the position `lower` (or from nothing), not by scaling the previous width - interval is discarded (or gained) outside the per-symbol accounting, so the size bound no longer follows from the symbols\' probabilities' % sym.show(e['value'])[:120]
+                    elif k != 'width' and not bad:
+                        bad = ('unresolved', 'store %s is not in the scaling grammar (range >> c, * probability, << c)' % sym.show(e['value'])[:100])
+                elif e['kind'] == 'call' and any(a[0] == 'ref' and a[2] and a[1][:len(RANGE)] == RANGE for a in e['args']):
+                    n += 1
+                    bad = bad or ('unresolved', 'range is handed to %s by mutable reference' % e['callee'])
+        if isinstance(bad, tuple):
+            ctx.unresolved('R1', role, b.defpath, bad[1], key=key)
+        elif bad:
+            ctx.bad('R1', role, b.defpath, bad, key=key, loc=rules.loc(b))
+        elif n == 0:
+            ctx.unresolved('R1', role, b.defpath, 'no store to `range` found', key=key)
+        else:
+            ctx.ok('R1', role, b.defpath, '%d store(s)/path(s) to range, each a function of the previous range' % n, key=key)
+
+
 def run(ctx):
     F = ctx.F
     check_ans_one_word_per_symbol(ctx, F)
     c07.check_held_back(ctx, F, only_potential=True)
     check_seal_bound(ctx, F)
+    check_width_conserved(ctx, F)
     c08.check_encoder_guard(ctx, F)
     check_export_bound(ctx, F)
     c18.check_ans_sizes(ctx, F)      # num_words() = remaining(bulk) + chunks appended on export
+    if ctx.tier == 'thorough':
+        from vlib import witness
+        witness.run(ctx, 'C12')      # "with the default presets the per-symbol term is below 0.006 bit": a const assertion over the preset aliases
     ctx.assume('StepBy over a Range of length L with step s yields ceil(L/s) items (std contract)')
     return {
         'level': 'other',
